@@ -2,6 +2,7 @@ package main
 
 import (
 	"fmt"
+	"go/token"
 	"go/types"
 	"sort"
 	"strings"
@@ -537,6 +538,7 @@ func checkC11(c *Ctx) {
 	c.Clause("SetStrategy hands every element of the old strategy's GetBackends() (the same *Backend) to the new strategy before publishing it; the three strategy-name tables agree")
 	c.Clause("RemoveBackend removes every backend of the name (or AddBackend rejects duplicates)")
 	c.Clause("admin handlers answer the success status only on the nil-error edge of the balancer call")
+	c.Clause("a registered backend forwards to the address of its own registration: its URL is this call's parsed address and its ReverseProxy is built from that URL in this call, on every path (nothing remembered from an earlier registration of the name)")
 	c.Clause("a Backend's identity and forwarding machinery (Name, URL, ReverseProxy, Weight) are never stored after the backend was published: a request that picked it just before a removal is still served through it")
 	c.Clause("the balancer and strategy locks are never re-acquired while held (a recursive read lock deadlocks as soon as an admin write queues between the two acquisitions) and are acquired in a consistent order")
 	c.NotDecided("linearizability of concurrent histories beyond mutual exclusion; that in-flight requests complete")
@@ -762,6 +764,7 @@ func checkC11(c *Ctx) {
 			map[bool]string{true: "the removal loop continues after a match (every backend of the name is removed)", false: "AddBackend rejects a name that is already present"}[all],
 			"only the first backend with the name is removed and AddBackend accepts duplicate names: add(x), add(x), remove(x) leaves a backend named x listed and receiving traffic")
 	}
+	c11OwnMachinery(c)
 	// 5. admin handlers
 	nm := p.Fn("internal/adminapi", "", "NewMux")
 	if nm == nil {
@@ -811,4 +814,152 @@ func checkC11(c *Ctx) {
 	}
 	c.Floor("admin-status-on-success", nH, 2, "admin mutation handlers")
 	_ = sort.Strings
+}
+
+// c11OwnMachinery: "once add returns the backend is eligible" means traffic for it reaches the address
+// that was just registered.  Wherever a Backend is given its URL and ReverseProxy, every value that
+// can reach those fields (through φs and local variables) is this call's own: the URL is a result of
+// url.Parse, the proxy a result of httputil.NewSingleHostReverseProxy applied to such a URL.  A proxy
+// taken from anywhere else (a cache keyed by name, a field, a global) still points at the address of
+// the registration it was built for.
+func c11OwnMachinery(c *Ctx) {
+	p := c.P
+	rule := "add-builds-own-proxy"
+	n := 0
+	var origins func(v ssa.Value, seen map[ssa.Value]bool, out *[]ssa.Value)
+	origins = func(v ssa.Value, seen map[ssa.Value]bool, out *[]ssa.Value) {
+		if v == nil || seen[v] {
+			return
+		}
+		seen[v] = true
+		switch x := v.(type) {
+		case *ssa.Phi:
+			for _, e := range x.Edges {
+				origins(e, seen, out)
+			}
+			return
+		case *ssa.ChangeType:
+			origins(x.X, seen, out)
+			return
+		case *ssa.Parameter:
+			// a helper's parameter: what its callers pass (all call sites)
+			if fn := x.Parent(); fn != nil && p.IsHelios(fn) && fn.Object() != nil && !fn.Object().Exported() {
+				idx := -1
+				for i, pm := range fn.Params {
+					if pm == x {
+						idx = i
+					}
+				}
+				found := false
+				for _, caller := range p.Funcs {
+					for _, ci := range callsIn(caller) {
+						if StaticFn(ci) == fn && idx >= 0 && idx < len(ci.Common().Args) {
+							origins(ci.Common().Args[idx], seen, out)
+							found = true
+						}
+					}
+				}
+				if found {
+					return
+				}
+			}
+		case *ssa.Call:
+			// a helper of this repository: what it returns
+			if h := StaticFn(x); h != nil && p.IsHelios(h) && h.Blocks != nil && h.Signature.Results().Len() == 1 {
+				instrsOf(h, func(in ssa.Instruction) {
+					if r, ok := in.(*ssa.Return); ok && len(r.Results) == 1 {
+						origins(r.Results[0], seen, out)
+					}
+				})
+				return
+			}
+		case *ssa.Extract:
+			if call, ok := x.Tuple.(*ssa.Call); ok {
+				if h := StaticFn(call); h != nil && p.IsHelios(h) && h.Blocks != nil {
+					instrsOf(h, func(in ssa.Instruction) {
+						if r, ok := in.(*ssa.Return); ok && x.Index < len(r.Results) {
+							if k, isK := r.Results[x.Index].(*ssa.Const); isK && k.Value == nil {
+								return // the failure return
+							}
+							origins(r.Results[x.Index], seen, out)
+						}
+					})
+					return
+				}
+			}
+		case *ssa.UnOp:
+			if a, ok := x.X.(*ssa.Alloc); ok && x.Op == token.MUL {
+				if refs := a.Referrers(); refs != nil {
+					found := false
+					for _, r := range *refs {
+						if st, ok := r.(*ssa.Store); ok && st.Addr == ssa.Value(a) {
+							origins(st.Val, seen, out)
+							found = true
+						}
+					}
+					if found {
+						return
+					}
+				}
+			}
+		}
+		*out = append(*out, v)
+	}
+	isParsedURL := func(v ssa.Value) bool {
+		var os []ssa.Value
+		origins(v, map[ssa.Value]bool{}, &os)
+		if len(os) == 0 {
+			return false
+		}
+		for _, o := range os {
+			ex, ok := o.(*ssa.Extract)
+			if !ok || ex.Index != 0 {
+				return false
+			}
+			call, ok := ex.Tuple.(*ssa.Call)
+			if !ok {
+				return false
+			}
+			switch CalleeName(call) {
+			case "net/url.Parse", "net/url.ParseRequestURI":
+			default:
+				return false
+			}
+		}
+		return true
+	}
+	for _, fn := range p.Funcs {
+		if !p.InScope(fn) {
+			continue
+		}
+		instrsOf(fn, func(in ssa.Instruction) {
+			k, st := storeKey(in)
+			if k != "loadbalancer.Backend.ReverseProxy" && k != "loadbalancer.Backend.URL" {
+				return
+			}
+			n++
+			construct := p.FuncKey(fn) + "/" + strings.TrimPrefix(k, "loadbalancer.")
+			if k == "loadbalancer.Backend.URL" {
+				c.Check(isParsedURL(st.Val), rule, construct, p.InstrPos(st), "the backend's URL is this call's url.Parse result on every path",
+					"a backend can be registered with a URL that is not the one parsed from this registration: "+p.Desc(st.Val, nil))
+				return
+			}
+			var os []ssa.Value
+			origins(st.Val, map[ssa.Value]bool{}, &os)
+			var bad []string
+			for _, o := range os {
+				call, ok := o.(*ssa.Call)
+				if !ok || CalleeName(call) != "net/http/httputil.NewSingleHostReverseProxy" {
+					bad = append(bad, p.Desc(o, nil))
+					continue
+				}
+				if !isParsedURL(call.Call.Args[0]) {
+					bad = append(bad, "NewSingleHostReverseProxy("+p.Desc(call.Call.Args[0], nil)+")")
+				}
+			}
+			c.Check(len(os) > 0 && len(bad) == 0, rule, construct, p.InstrPos(st), fmt.Sprintf("the backend's proxy is NewSingleHostReverseProxy(url.Parse(address)) of this call on every path (%d origin(s))", len(os)),
+				"a backend can be registered with a proxy that was not built from this registration's address ("+strings.Join(bad, "; ")+"): it is listed under the new address while its traffic goes wherever that proxy points — a name re-added with another address keeps serving the old one, also after it was removed")
+		})
+	}
+	c.Floor(rule, n, 2, "stores to Backend.URL / Backend.ReverseProxy")
 }
